@@ -1,6 +1,6 @@
 (* C12/Proofs.v — lemmas behind C12/Properties.v (the bulk is in Scale/*Proofs.v). *)
 From Common Require Import Bytes Outcome.
-From Scale Require Import Compact CompactProofs Types Spec Codec.
+From Scale Require Import Compact CompactProofs Types Spec Codec EncodeProofs MonadLemmas RoundTrip Prefix.
 From C12 Require Import Model.
 Local Open Scope N_scope.
 
@@ -37,3 +37,66 @@ Lemma map_dup_witness :
   map_noncanonical (TMap TU8 TU8) [b 8; b 1; b 1; b 1; b 2] = true /\
   decode_res ideal (TMap TU8 TU8) [b 8; b 1; b 1; b 1; b 2] = Err 1%nat.
 Proof. vm_compute. repeat split; reflexivity. Qed.
+
+(* ---- the properties of the decoder with all repairs (cfg ideal) *)
+Lemma res_of_run c t bs v r :
+  decode_res c t bs = Ok (v, r) -> exists m', decode c t bs 0 = (Ok (v, r), m').
+Proof.
+  unfold decode_res, run_decode. destruct (decode c t bs 0) as [o m'] eqn:E. cbn. intros ->. now exists m'.
+Qed.
+
+Lemma prefix_ideal t bs v r :
+  wf_ty t = true -> decode_res ideal t bs = Ok (v, r) ->
+  has_type v t = true /\ bs = spec_encode t v ++ r.
+Proof.
+  intros W H. apply res_of_run in H as [m' H].
+  exact (decode_prefix ideal eq_refl eq_refl eq_refl eq_refl t bs 0 v r m' W H).
+Qed.
+
+(* on the current tree the same holds whenever neither finding guard fires, because then the
+   current decoder and the ideal one agree ... stated directly: if the decoder with the two
+   hypothetical repairs (bytes, strict maps) returns the same result, the result is canonical *)
+Definition repaired (c : cfg) : cfg := strict (with_bytes c).
+
+Lemma prefix_current_partial t bs v r :
+  wf_ty t = true -> decode_res current t bs = Ok (v, r) ->
+  decode_res (repaired current) t bs = Ok (v, r) ->
+  has_type v t = true /\ bs = spec_encode t v ++ r.
+Proof.
+  intros W _ H. apply res_of_run in H as [m' H].
+  exact (decode_prefix (repaired current) eq_refl eq_refl eq_refl eq_refl t bs 0 v r m' W H).
+Qed.
+
+Lemma app_inv_length {A} (a b c d : list A) : a ++ b = c ++ d -> length a = length c -> a = c /\ b = d.
+Proof.
+  revert c; induction a as [|x a IH]; intros [|y c] E L; try discriminate L; cbn in *.
+  - now split.
+  - injection E as -> E. injection L as L. destruct (IH c E L) as [-> ->]. now split.
+Qed.
+
+(* truncated input always fails *)
+Lemma truncation_ideal t v p s :
+  wf_ty t = true -> has_type v t = true -> spec_encode t v = p ++ s -> s <> [] ->
+  forall w r, decode_res ideal t p <> Ok (w, r).
+Proof.
+  intros W H E NE w r D.
+  destruct (prefix_ideal t p w r W D) as [Hw Ep].
+  (* p = spec w ++ r, and spec v = p ++ s = spec w ++ (r ++ s): decode both *)
+  assert (R1 : decode_res ideal t (spec_encode t w ++ (r ++ s)) = Ok (w, r ++ s)).
+  { rewrite <- (encode_canonical t w Hw). unfold decode_res, run_decode.
+    destruct (decode_encode ideal eq_refl t w (r ++ s) W Hw (or_introl eq_refl) 0) as [m' ->]. reflexivity. }
+  assert (R2 : decode_res ideal t (spec_encode t v ++ []) = Ok (v, [])).
+  { rewrite <- (encode_canonical t v H). unfold decode_res, run_decode.
+    destruct (decode_encode ideal eq_refl t v [] W H (or_introl eq_refl) 0) as [m' ->]. reflexivity. }
+  rewrite app_nil_r, E, Ep, <- app_assoc in R2. rewrite R1 in R2. injection R2 as _ R2.
+  destruct r; destruct s; try discriminate R2. now apply NE.
+Qed.
+
+(* non-canonical input is rejected: anything accepted is canonical, so a string that is not
+   (canonical encoding ++ rest) for any well-typed value is refused *)
+Lemma noncanonical_ideal t bs :
+  wf_ty t = true -> (forall v r, has_type v t = true -> bs <> spec_encode t v ++ r) ->
+  forall w r, decode_res ideal t bs <> Ok (w, r).
+Proof.
+  intros W NC w r D. destruct (prefix_ideal t bs w r W D) as [Hw E]. exact (NC w r Hw E).
+Qed.
